@@ -38,14 +38,14 @@ def run(chk):
   symtree_check.model_check(chk, ['C08_quick.cfg'])
   hits = {}
   plan = [('C08_sim.cfg', 700, 30), ('C08_sim_obj.cfg', 300, 30)] if not thorough else \
-         [('C08_sim.cfg', 14000, 40), ('C08_sim_obj.cfg', 6000, 40)]
+         [('C08_sim.cfg', 6000, 40), ('C08_sim_obj.cfg', 3000, 40)]
   for cfg, num, depth in plan:
     h = symtree_check.replay_simulated(chk, cfg, CLAUSES, num, depth, chk.seed, in_scope=in_scope,
                                        batches=1 if not thorough else 8)
     for k, v in h.items():
       hits[k] = hits.get(k, 0) + v
   h = symtree_check.replay_transitions(chk, 'C08_states.cfg', 'C08_step.cfg', CLAUSES, in_scope=in_scope,
-                                       max_states=12 if not thorough else 600, seed=chk.seed)
+                                       max_states=12 if not thorough else 200, seed=chk.seed)
   for kk, v in h.items():
     hits[kk] = hits.get(kk, 0) + v
   chk.notes['action_outcome_hits'] = dict(sorted(hits.items()))
